@@ -181,6 +181,7 @@ func (w *worldA) checkTrace(tm *traceModel) {
 		for _, sr := range accepted {
 			if len(sr.fwd) == 0 {
 				out.Violate("C05", "dry_run_span_not_forwarded", siteCollect, "dry run is on but span %s of trace#%d (sampler decision kept=%v, late=%v) was not forwarded", sr.spanID, tm.idx, first.kept, sr.late)
+				out.Violate("C02", "dry_run_span_not_forwarded", siteCollect, "dry run is on but accepted span %s of trace#%d (sampler decision kept=%v, late=%v) was never handed to the transmission", sr.spanID, tm.idx, first.kept, sr.late)
 				continue
 			}
 			f := sr.fwd[0]
